@@ -13,7 +13,7 @@ Import ListNotations.
 Open Scope Z_scope.
 
 Inductive ssa_op : Type :=
-| In (k : nat)                    (* input[k] *)
+| Inp (k : nat)                   (* input[k] *)
 | Add (i j : positive)            (* node_i.wrapping_add(node_j) *)
 | Sub (i j : positive)            (* node_i.wrapping_sub(node_j) *)
 | MulC (c : Z) (i : positive).    (* node_i.wrapping_mul(c) , c a literal *)
@@ -27,7 +27,7 @@ Definition get (m : env) (i : positive) : Z :=
 
 Definition eval_op (x : list Z) (m : env) (o : ssa_op) : Z :=
   match o with
-  | In k => nth k x 0
+  | Inp k => nth k x 0
   | Add i j => wadd 64 (get m i) (get m j)
   | Sub i j => wsub 64 (get m i) (get m j)
   | MulC c i => wmul 64 (get m i) c
@@ -67,7 +67,7 @@ Definition getrow (m : lenv) (i : positive) : list Z :=
 
 Definition lin_op (m : lenv) (o : ssa_op) : list Z :=
   match o with
-  | In k => runit k
+  | Inp k => runit k
   | Add i j => radd (getrow m i) (getrow m j)
   | Sub i j => rsub (getrow m i) (getrow m j)
   | MulC c i => rscale c (getrow m i)
@@ -79,16 +79,15 @@ Fixpoint lin_prog (p : ssa_prog) (m : lenv) : lenv :=
   | (id, o) :: r => lin_prog r (PositiveMap.add id (lin_op m o) m)
   end.
 
-(* the coefficient matrix of the program: one row (padded to n columns) per output *)
-Definition pad_row (n : nat) (r : list Z) : list Z := firstn n (r ++ repeat 0 n).
-Definition ssa_matrix (p : ssa_prog) (outs : list positive) (n : nat) : list (list Z) :=
-  let m := lin_prog p (PositiveMap.empty (list Z)) in map (fun o => pad_row n (getrow m o)) outs.
+(* the coefficient matrix of the program: one row per output *)
+Definition ssa_matrix (p : ssa_prog) (outs : list positive) : list (list Z) :=
+  let m := lin_prog p (PositiveMap.empty (list Z)) in map (getrow m) outs.
 
 (* ---------------------------------------------------------------- well-formedness (what rustc enforces) *)
 Definition op_refs (o : ssa_op) : list positive :=
-  match o with In _ => [] | Add i j => [i; j] | Sub i j => [i; j] | MulC _ i => [i] end.
+  match o with Inp _ => [] | Add i j => [i; j] | Sub i j => [i; j] | MulC _ i => [i] end.
 Definition op_ok (n : nat) (o : ssa_op) : bool :=
-  match o with In k => Nat.ltb k n | MulC c _ => (0 <=? c) && (c <? M64) | _ => true end.
+  match o with Inp k => Nat.ltb k n | MulC c _ => (0 <=? c) && (c <? M64) | _ => true end.
 
 Fixpoint ssa_wf_go (n : nat) (p : ssa_prog) (defined : PositiveMap.t unit) : option (PositiveMap.t unit) :=
   match p with
